@@ -69,9 +69,12 @@ def run(rep, tier):
     ntune = len([x for x in allrecs if x["e"] == "Tune"])
     nthrew = len([x for x in allrecs if x["e"] == "Threw"])
     ncb = len([x for x in allrecs if x["e"] == "Cb"])
-    if not rep.violations and (ntuner < 50 or ntune < 20 or nthrew < 3):
-        raise CheckError("tuner driver coverage too small: %d tuner runs, %d tune runs, %d throws" % (ntuner, ntune, nthrew))
-    rep.add(traces_validated_against_impl=accepted, tuner_runs=ntuner, tune_runs=ntune, nonfinite_runs=nthrew, callbacks_checked=ncb)
+    nwarm = len([x for x in allrecs if x["e"] == "Cb" and x.get("batch0", -1) > 0])
+    if not rep.violations and (ntuner < 50 or ntune < 20 or nthrew < 3 or nwarm < 200):
+        raise CheckError("tuner driver coverage too small: %d tuner runs, %d tune runs, %d throws, %d warm starts with visible batches"
+                         % (ntuner, ntune, nthrew, nwarm))
+    rep.add(traces_validated_against_impl=accepted, tuner_runs=ntuner, tune_runs=ntune, nonfinite_runs=nthrew, callbacks_checked=ncb,
+            warm_starts_checked=nwarm)
     ex0 = trace.split_executions(allrecs)
     rep.sample({"tuner_run": ex0[0][:6]})
     tunes = [e for e in ex0 if any(x["e"] == "Tune" for x in e)]
@@ -79,7 +82,10 @@ def run(rep, tier):
         rep.sample({"tune_run": tunes[0][:8]})
     rep.assume("landscape values and callback results are small integers (exact); values enter TLC as order ranks / sums",
                "the callback of ml::tune identifies its fold by comparing the index sets it receives with the splitter's (k-fold: pairwise distinct folds)",
-               "the trial of a callback invocation is resolved after the run from the parameter values registered in the result")
+               "the trial of a callback invocation is resolved after the run from the parameter values registered in the result",
+               "the batches of trials are read off the moments ml::tune writes to the logger of the fit parameters (after every batch); "
+               "the warm start of a callback must come from a finished callback of the same fold (logical clock) and, batch-wise, from "
+               "a closest trial (Euclidean distance, any of the closest) of the earlier batches - nothing in the first batch")
 
 
 def replay(rep, path):
